@@ -103,7 +103,11 @@ func (p *parser) endsInANumber(u *Url, input string) bool {
 		parts = parts[0 : len(parts)-1]
 	}
 	last := parts[len(parts)-1]
-	if last != "" && containsOnly(last, ASCIIDigit) {
+	if last == "" {
+		// an empty label is not a number; do not probe it (the probe would report a fatal validation error)
+		return false
+	}
+	if containsOnly(last, ASCIIDigit) {
 		return true
 	}
 	if _, _, err := p.parseIPv4Number(u, last); err == nil || goerrors.Is(err, strconv.ErrRange) {
